@@ -312,3 +312,14 @@ def _mk(rule):
 
 lemmas.register("C15.R1", _mk("C15.R1"))
 lemmas.register("C15.R5", _mk("C15.R5"))
+
+
+def _lemma_all(prog):
+    from ..engine import Report
+    rep = Report("C15")
+    rep.set_config(prog.config)
+    run(prog, rep)
+    return not rep.violations
+
+
+lemmas.register("C15", _lemma_all)
